@@ -224,7 +224,7 @@ func c18ScaleCases(thorough bool) []*c18Case {
 	// around 64 KiB and 1 MiB and beyond, as many lines and as one line without a line end
 	huge := []int{65535, 65536, 65537, 1<<20 - 1, 1 << 20, 1<<20 + 1, 3 << 20}
 	if thorough {
-		huge = append(huge, 16<<20, 1<<26+1)
+		huge = append(huge, 16<<20)
 	}
 	for _, n := range huge {
 		for oneLine := 0; oneLine < 2; oneLine++ {
